@@ -5,8 +5,8 @@
 (* Returned points are projected to units of 10^-6.                                             *)
 EXTENDS Lin, TLC, Json, IOUtils
 Batch == JsonDeserialize(IOEnv.TRACE_FILE)
-VARIABLES tid, l, ok, why, orc, open, inc, sg, div
-vars == <<tid, l, ok, why, orc, open, inc, sg, div>>
+VARIABLES tid, l, ok, why, orc, open, inc, sg, div, unres
+vars == <<tid, l, ok, why, orc, open, inc, sg, div, unres>>
 T == Batch[tid]
 S6 == 1000000
 Abs(x) == IF x < 0 THEN -x ELSE x
@@ -46,7 +46,7 @@ FeasPts(t) == {r \in {[p |-> x, a |-> Complete(t, x, 1), z |-> Complete(t, x, -1
 Init == /\ tid \in 1..Len(Batch) /\ l = 1 /\ ok = TRUE /\ why = ""
         /\ orc = [min |-> Best(tid, 1), max |-> Best(tid, -1),
                   F |-> {[p |-> r.p, vmin |-> Dec6(r.a[1], r.a[2]), vmax |-> Dec6(r.z[1], r.z[2])] : r \in FeasPts(tid)}]
-        /\ open = {} /\ inc = NoInc /\ sg = 1 /\ div = {}
+        /\ open = {} /\ inc = NoInc /\ sg = 1 /\ div = {} /\ unres = FALSE
 I == {T.ints[i] : i \in 1..Len(T.ints)}
 PointBad(x) ==
   IF Len(x) # T.n THEN "Solution.wrong_dimension"
@@ -130,19 +130,26 @@ Bnb(e) ==
                                /\ v * S6 <= e.val6 /\ e.val6 <= (v + 1) * S6
                   IN /\ open' = rest \cup {left, right} /\ UNCHANGED <<inc, sg>>
                      /\ div' = div \cup isopen \cup (IF shape THEN {} ELSE {"Branch.children_do_not_partition_parent"})
-              [] OTHER ->      \* node LP did not finish (max_iter): the node is dropped - outside the property's domain, flagged
-                  /\ open' = rest /\ UNCHANGED <<inc, sg>> /\ div' = div \cup {"Node.dropped_without_verdict(" \o e.act \o ")"})
+              [] OTHER ->      \* node LP did not finish (iteration limit): the box leaves `open` unexplored; the call must not
+                               \* claim OPTIMAL or INFEASIBLE afterwards (checked at the return)
+                  /\ open' = rest /\ UNCHANGED <<inc, sg>> /\ div' = div \cup isopen)
     [] OTHER -> UNCHANGED <<open, inc, sg, div>>
 IsRet(e) == e.e \in {"ret", "raise", "noreturn"}
 Step == /\ ok /\ l <= Len(T.events) /\ l' = l + 1 /\ UNCHANGED <<tid, orc>>
         /\ LET e == T.events[l] IN
            IF IsRet(e)
            THEN /\ (LET w == Check(e) IN IF w = "" THEN UNCHANGED <<ok, why>> ELSE ok' = FALSE /\ why' = w)
-                /\ UNCHANGED <<open, inc, sg>>
+                /\ UNCHANGED <<open, inc, sg, unres>>
                 \* Bnb!Finish: INFEASIBLE only without incumbent; OPTIMAL at loop exit only under Cover with no open box
                 /\ div' = div \cup (IF e.e = "ret" /\ e.status = "INFEASIBLE" /\ inc # NoInc THEN {"Return.infeasible_with_incumbent"} ELSE {})
-                              \cup (IF e.e = "ret" /\ e.status = "OPTIMAL" /\ open = {} /\ ~CoverOK(open, inc) THEN {"Return.optimal_without_cover"} ELSE {})
-           ELSE Bnb(e) /\ UNCHANGED <<ok, why>>
+                              \cup (IF e.e = "ret" /\ e.status = "OPTIMAL" /\ open = {} /\ ~unres /\ ~CoverOK(open, inc) THEN {"Return.optimal_without_cover"} ELSE {})
+                              \cup (IF e.e = "ret" /\ e.status \in {"OPTIMAL", "INFEASIBLE"} /\ unres THEN {"Return.verdict_with_unresolved_node"} ELSE {})
+                              \* the point handed back as OPTIMAL must be the best incumbent the call has seen
+                              \cup (IF e.e = "ret" /\ e.status = "OPTIMAL" /\ e.finite /\ inc # NoInc /\ sg * e.obj6 > inc + Tol(inc) THEN {"Return.optimal_is_a_stale_incumbent"} ELSE {})
+           ELSE /\ Bnb(e) /\ UNCHANGED <<ok, why>>
+                /\ unres' = (IF e.e = "start" THEN FALSE
+                             ELSE IF e.e = "milp_node" /\ e.act \notin {"prune_bound", "prune_lp", "lp_infeasible", "integral", "branch"} THEN TRUE
+                             ELSE unres)
 Spec == Init /\ [][Step]_vars
 Report == (l = Len(T.events) + 1 \/ ~ok) => PrintT(ToJson([tid |-> tid, ok |-> ok, why |-> why, l |-> l, feas |-> orc.min # <<0, 0>>, div |-> div]))
 ==========================================================================
